@@ -56,6 +56,8 @@ RULES = {
     'R-OFFS': ('r_generic2', 'rule_OFFS', 'default'),
     'R-CODE': ('r_generic2', 'rule_CODE', 'default'),
     'R-HORD': ('r_generic2', 'rule_HORD', 'default'),
+    'R-NCNT': ('r_generic2', 'rule_NCNT', 'default'),
+    'R-CGEN': ('r_generic2', 'rule_CGEN', 'default'),
 }
 
 _cache = {}
@@ -83,6 +85,21 @@ def _guarded(rule, thunk):
         sys.stderr.write('\n'.join(tb[-6:]) + '\n')
         return [Inst(rule, '%s|analysis failed' % rule, 'note', '', 'the rule raised %s: %s (%s): not decided on this tree' % (type(e).__name__, e, tb[-3].strip() if len(tb) >= 3 else ''),
                      sorted(PROPERTIES), nontrivial=False)]
+
+
+# An instance decided for one property is also an obligation of another one when the second property's statement covers the
+# same clause: C18 (pure queries: the answer depends on the structure only) needs every query to stay inside the structure's
+# memory and to validate like its twin, which are the guard / twin instances of C04 and C10.
+IMPLIED = {'C18': {'R-G': ('C04',), 'R-TW': ('C10',), 'R-GUSE': ('C04',)}}
+
+
+def relevant(prop, inst):
+    if prop in inst.props:
+        return True
+    via = IMPLIED.get(prop, {}).get(inst.rule, ())
+    if '|over-strict' in inst.key:
+        return False     # a guard that rejects too much keeps the query inside the structure: not a matter of the implied property
+    return any(p in inst.props for p in via)
 
 
 def run_rule(rule, facts, tier):
@@ -194,6 +211,8 @@ TEXT = {
     'R-OFFS': 'R-OFFS: the prefetch phases of rank take the child-range offset from the same per-level counter as rank_unchecked.',
     'R-CODE': 'R-CODE: the content of a prefix code is shifted by an amount computed from that code\'s own length, not from another length of the tree.',
     'R-HORD': 'R-HORD: a sequence built from the iteration of a hash container is sorted in the function that builds it.',
+    'R-NCNT': 'R-NCNT: a constructor does not loop over `0..=n` for a count n it records.',
+    'R-CGEN': 'R-CGEN: const generic parameters are used: a free function reads its own, a type\'s parameter reaches an associated constant or a body, and generic code does not call a fixed instantiation of its own type.',
     'R-PAR': 'R-PAR: vector fields that a reader indexes with one index receive their elements under the same conditions in the constructor (no append depending on the appended element itself).',
     'R-REMC': 'R-REMC: `len & (C-1)` is never compared by order with a position nor passed as a count: for a full last chunk it is 0.',
     'R-OBJ': 'R-OBJ: a function handed a component by reference (select<BIT>(.., inventories: &Inventories<BIT>)) never reads a field of self of the same type, in its body or its inlined private helpers: the work is done on the object it was given.',
@@ -217,20 +236,20 @@ EXPL = ('Static analysis of the type-checked program (MIR, ADT/impl metadata, ev
         'configurations. Decides the structural clauses listed under `rule` -- necessary conditions of the property that are visible in the shape '
         'of the code on every path -- and NOT the input/output behaviour, which quantifies over runtime values. ')
 
-_p('C01', ['R-G', 'R-SIB', 'R-E', 'R-O', 'R-W', 'R-TW', 'R-DEL', 'R-LAY', 'R-BITS', 'R-SPLIT', 'R-SMP', 'R-CMP', 'R-SELP', 'R-SIG', 'R-PRE', 'R-GUSE', 'R-REMC', 'R-PAR', 'R-SER', 'R-GIDX', 'R-DNAME', 'R-EMPT', 'R-USE', 'R-STAB', 'R-CTOR'], 'other',
+_p('C01', ['R-G', 'R-SIB', 'R-E', 'R-O', 'R-W', 'R-TW', 'R-DEL', 'R-LAY', 'R-BITS', 'R-SPLIT', 'R-SMP', 'R-CMP', 'R-SELP', 'R-SIG', 'R-PRE', 'R-GUSE', 'R-REMC', 'R-PAR', 'R-SER', 'R-GIDX', 'R-DNAME', 'R-EMPT', 'R-USE', 'R-STAB', 'R-CTOR', 'R-OFFS', 'R-NCNT', 'R-CGEN'], 'other',
    EXPL + 'C01: validation of QWaveletTree get/rank/rank_prefetch/select, empty/default state, argument arithmetic, symbol width in builder/partition/readers, construction paths.',
    'that ranks/offsets compose to the right count and position across levels; sigma / n_levels arithmetic; that stable_partition_of_4 is a stable permutation')
-_p('C02', ['R-G', 'R-SIB', 'R-E', 'R-O', 'R-W', 'R-LVL', 'R-TW', 'R-DEL', 'R-LAY', 'R-BITS', 'R-SPLIT', 'R-SMP', 'R-SELP', 'R-SIG', 'R-PRE', 'R-GUSE', 'R-PAR', 'R-SER', 'R-GIDX', 'R-DNAME', 'R-EMPT', 'R-USE', 'R-STAB', 'R-CTOR', 'R-CODE', 'R-HORD'], 'other',
+_p('C02', ['R-G', 'R-SIB', 'R-E', 'R-O', 'R-W', 'R-LVL', 'R-TW', 'R-DEL', 'R-LAY', 'R-BITS', 'R-SPLIT', 'R-SMP', 'R-SELP', 'R-SIG', 'R-PRE', 'R-GUSE', 'R-PAR', 'R-SER', 'R-GIDX', 'R-DNAME', 'R-EMPT', 'R-USE', 'R-STAB', 'R-CTOR', 'R-CODE', 'R-HORD', 'R-OFFS', 'R-NCNT', 'R-CGEN'], 'other',
    EXPL + 'C02: validity test (symbol has a code) on rank/rank_prefetch/select, its width, empty state, level-write guard and provenance of code lengths, construction paths.',
    'correctness of craft_wm_codes (prefix-freeness, ordering), independence from hash-map tie order, decode-table search, code lengths beyond 16 levels')
-_p('C03', ['R-G', 'R-SIB', 'R-E', 'R-O', 'R-W', 'R-LVL', 'R-TW', 'R-DEL', 'R-LAY', 'R-BITS', 'R-SPLIT', 'R-HINT', 'R-SELP', 'R-SIG', 'R-GUSE', 'R-PAR', 'R-SER', 'R-GIDX', 'R-DNAME', 'R-EMPT', 'R-USE', 'R-STAB', 'R-CTOR', 'R-CODE', 'R-HORD'], 'other',
+_p('C03', ['R-G', 'R-SIB', 'R-E', 'R-O', 'R-W', 'R-LVL', 'R-TW', 'R-DEL', 'R-LAY', 'R-BITS', 'R-SPLIT', 'R-HINT', 'R-SELP', 'R-SIG', 'R-GUSE', 'R-PAR', 'R-SER', 'R-GIDX', 'R-DNAME', 'R-EMPT', 'R-USE', 'R-STAB', 'R-CTOR', 'R-CODE', 'R-HORD', 'R-NCNT'], 'other',
    EXPL + 'C03: validation of WT/HWT get/rank/select in both specialisations, symbol carried in the element type, empty state, level-write guard, construction paths.',
    'wavelet-matrix arithmetic, binwt::craft_wm_codes table bounds for degenerate alphabets (loop-carried indices), tie orders')
-_p('C04', ['R-G', 'R-E', 'R-O', 'R-UNS', 'R-SIB', 'R-LAY', 'R-DA', 'R-DBG', 'R-SMP', 'R-CMP', 'R-SELP', 'R-PF', 'R-INV', 'R-DAR', 'R-PRE', 'R-NON', 'R-GUSE', 'R-WRAP', 'R-RNG', 'R-W', 'R-SER', 'R-PAR', 'R-GIDX'], 'other',
+_p('C04', ['R-G', 'R-E', 'R-O', 'R-UNS', 'R-SIB', 'R-LAY', 'R-DA', 'R-DBG', 'R-SMP', 'R-CMP', 'R-SELP', 'R-PF', 'R-INV', 'R-DAR', 'R-PRE', 'R-NON', 'R-GUSE', 'R-WRAP', 'R-RNG', 'R-W', 'R-SER', 'R-PAR', 'R-GIDX', 'R-IT'], 'other',
    EXPL + 'C04: every unchecked access is behind the documented guard, empty/default states reach no trap, argument arithmetic is bounded, unchecked API is unsafe, '
    'raw views match layouts.',
    'index arithmetic inside search loops (select_block, select*_subblock, block_predecessor, DArray word scan: sentinel invariants over stored data), CPU feature of _popcnt64, allocation failure')
-_p('C05', ['R-G', 'R-SIB', 'R-E', 'R-TW', 'R-LAY', 'R-DEL', 'R-DA', 'R-SPLIT', 'R-SMP', 'R-CMP', 'R-PRE', 'R-GUSE', 'R-REMC', 'R-SER', 'R-GIDX', 'R-DNAME', 'R-EMPT', 'R-USE', 'R-CTOR'], 'other',
+_p('C05', ['R-G', 'R-SIB', 'R-E', 'R-TW', 'R-LAY', 'R-DEL', 'R-DA', 'R-SPLIT', 'R-SMP', 'R-CMP', 'R-PRE', 'R-GUSE', 'R-REMC', 'R-SER', 'R-GIDX', 'R-DNAME', 'R-EMPT', 'R-USE', 'R-CTOR', 'R-CGEN'], 'other',
    EXPL + 'C05: validation of RSQVector get/rank/select/occs/occs_smaller, packed superblock record (writer/reader agreement), sampling constants, twins.',
    'counter contents, the sampled search, in-block select, per-symbol totals being prefix sums')
 _p('C06', ['R-G', 'R-SIB', 'R-E', 'R-TW', 'R-LAY', 'R-DEL', 'R-SPLIT', 'R-CMP', 'R-HINT', 'R-NON', 'R-GUSE', 'R-SER', 'R-GIDX', 'R-DNAME', 'R-EMPT', 'R-SIGN', 'R-USE', 'R-CTOR'], 'other',
@@ -239,14 +258,14 @@ _p('C06', ['R-G', 'R-SIB', 'R-E', 'R-TW', 'R-LAY', 'R-DEL', 'R-SPLIT', 'R-CMP', 
 _p('C07', ['R-DAR', 'R-G', 'R-E', 'R-TW', 'R-DEL', 'R-LAY', 'R-SPLIT', 'R-NEG', 'R-OBJ', 'R-GUSE', 'R-SER', 'R-GIDX', 'R-DNAME', 'R-EMPT', 'R-USE', 'R-CTOR'], 'other',
    EXPL + 'C07: writer/reader agreement on the shared inventories, the u16 narrowing bound, flush trigger, select guards, default state.',
    'the word scan and sign-encoded pointers')
-_p('C08', ['R-SIB', 'R-NON', 'R-O', 'R-G', 'R-TW', 'R-LAY', 'R-E', 'R-SPLIT', 'R-CMP', 'R-NEG', 'R-GUSE', 'R-WRAP', 'R-REMC', 'R-IT', 'R-SER', 'R-GIDX', 'R-DNAME', 'R-EMPT', 'R-SIGN', 'R-USE', 'R-CTOR'], 'other',
+_p('C08', ['R-SIB', 'R-NON', 'R-O', 'R-G', 'R-TW', 'R-LAY', 'R-E', 'R-SPLIT', 'R-CMP', 'R-NEG', 'R-GUSE', 'R-WRAP', 'R-REMC', 'R-IT', 'R-SER', 'R-GIDX', 'R-DNAME', 'R-EMPT', 'R-SIGN', 'R-USE', 'R-CTOR', 'R-DEL'], 'other',
    EXPL + 'C08: BitVector vs BitVectorMut readers validate identically, cached population count depends on overwritten bits, conversions move every field, get_bits arithmetic.',
    'bit-level effect of set_symbol, word reads and position iterators over arbitrary histories')
 _p('C09', ['R-PF', 'R-EFF', 'R-SIB', 'R-LAY', 'R-BITS', 'R-SER', 'R-PAR', 'R-OFFS'], 'other',
    EXPL + 'C09: rank_prefetch validates like rank and returns exactly rank_unchecked on the untouched arguments; prefetch addresses use wrapping arithmetic and only reach the '
    'intrinsic; positions feed only hints; bodies are feature-independent.',
    'that the estimates stay within the next level where they are re-used as arguments of approx_rank_unchecked / rank_block_unchecked (an invariant over data)')
-_p('C10', ['R-TW', 'R-DA', 'R-DBG', 'R-G', 'R-UNS', 'R-O', 'R-NON', 'R-W', 'R-WRAP', 'R-SER'], 'other',
+_p('C10', ['R-TW', 'R-DA', 'R-DBG', 'R-G', 'R-UNS', 'R-O', 'R-NON', 'R-W', 'R-WRAP', 'R-SER', 'R-PF'], 'other',
    EXPL + 'C10: twin shapes make checked and unchecked values equal by construction; debug assertions equal the documented precondition; build profiles differ only by assertions.',
    'whether the shared unchecked body is itself correct (C01-C08)')
 _p('C11', ['R-SER', 'R-AUTO', 'R-EFF', 'R-NON'], 'proof',
@@ -260,15 +279,15 @@ _p('C12', ['R-IT', 'R-E', 'R-REMC', 'R-G', 'R-GIDX'], 'other', EXPL + 'C12: curs
 _p('C13', ['R-MSK', 'R-G', 'R-TW', 'R-DEL', 'R-LAY', 'R-E', 'R-SPLIT', 'R-GUSE', 'R-REMC', 'R-IT', 'R-O', 'R-DA', 'R-SER', 'R-GIDX', 'R-DNAME', 'R-EMPT', 'R-USE', 'R-CTOR'], 'other',
    EXPL + 'C13: two-bit truncation precedes the write, factor-2 agreement of push/len/get, extend pushes every element, get validation.',
    'bit placement inside the line for all 256 positions')
-_p('C14', ['R-LAY', 'R-BOX', 'R-PF', 'R-SIG', 'R-NON'], 'other', EXPL + 'C14: layouts and constants from which the relative overheads are computed and compared with the stated bounds; payload fields have no slack.',
+_p('C14', ['R-LAY', 'R-BOX', 'R-PF', 'R-SIG', 'R-NON', 'R-NCNT', 'R-CGEN'], 'other', EXPL + 'C14: layouts and constants from which the relative overheads are computed and compared with the stated bounds; payload fields have no slack.',
    'the level-count formula and allocation totals for all n (loop trip counts)')
 _p('C15', ['R-LVL', 'R-LAY', 'R-HORD'], 'other', EXPL + 'C15: levels hold only live codes; optimal lengths used unmodified with the right fragment width.',
    'the numeric bounds n(H0+2), n(H0+1): they follow from Huffman optimality (trusted crate minimum_redundancy) given the decided clauses')
 _p('C16', ['R-SPC'], 'other', EXPL + 'C16: every heap-bearing component is accounted; Vec counts capacity; scaled variants divide by 1024^k.',
    'closeness in percent; Huffman table constants')
-_p('C17', ['R-TAB', 'R-W', 'R-ALL', 'R-WRAP', 'R-RNG', 'R-FLT', 'R-STAB', 'R-HORD'], 'other', EXPL + 'C17: the in-byte select table is checked exhaustively (2048 entries) against its definition; partitions shift in the element type.',
+_p('C17', ['R-TAB', 'R-W', 'R-ALL', 'R-WRAP', 'R-RNG', 'R-FLT', 'R-STAB', 'R-HORD', 'R-CGEN'], 'other', EXPL + 'C17: the in-byte select table is checked exhaustively (2048 entries) against its definition; partitions shift in the element type.',
    'broadword arithmetic of select_in_word(_u128) for all words, popcnt_wide, msb, permutation/stability of partitions, text_remap (numeric facts over all inputs)')
-_p('C18', ['R-AUTO', 'R-EFF', 'R-UNS'], 'proof',
+_p('C18', ['R-AUTO', 'R-EFF', 'R-UNS', 'R-G', 'R-TW', 'R-GUSE'], 'proof',
    'Obligations = per field of the containment closure {no interior mutability / raw pointer / shared-ownership type}, per &self query method {no write effect on its call-graph closure}, '
    'per *_unchecked fn {unsafe}. With them rustc\'s auto traits give Send+Sync (also discharged by the type checker on concrete instantiations in the thorough tier witness crate) and '
    'data-race freedom / interleaving independence follow from Sync + no write through shared references.',
